@@ -132,6 +132,7 @@ type h1View struct {
 	version uint64
 	left    bool
 	everLeft bool // this observer has at some time shown the node as left
+	expiredOnce bool // the observer has forgotten the node at least once
 	leftSeenSet bool
 	leftSeenAt  time.Time // when this observer first showed the node as left (since it last learnt it)
 }
@@ -807,6 +808,7 @@ func (w *h1World) checkAll(localOpOn *h1Node) {
 			if v := o.views[id]; v != nil {
 				v.known = false // forgotten: monotonicity and stickiness tracking restart
 				v.leftSeenSet = false
+				v.expiredOnce = true
 			}
 		}
 		metas := o.g.state.Nodes()
@@ -841,6 +843,7 @@ func (w *h1World) checkAll(localOpOn *h1Node) {
 			if !known[id] && v.known {
 				v.known = false // forgotten (expired): monotonicity tracking restarts
 				v.leftSeenSet = false
+				v.expiredOnce = true
 			}
 		}
 		w.checkFold(o, metas)
@@ -896,7 +899,12 @@ func (w *h1World) checkView(o, x *h1Node, ns *NodeState) {
 		}
 		he, ok := have[k]
 		if !ok {
-			run.Fail("C02.prefix", "missing-entry", "%s: owner's %q=(%q,v%d,deleted=%v) is at or below the reported version but absent", tag, k, ce.Value, ce.Version, ce.Deleted)
+			sig := "missing-entry"
+			if pv.expiredOnce {
+				// F4: re-created after an expiry from a delta answering a pre-expiry digest
+				sig = "missing-entry-after-expiry-relearn"
+			}
+			run.Fail("C02.prefix", sig, "%s: owner's %q=(%q,v%d,deleted=%v) is at or below the reported version but absent", tag, k, ce.Value, ce.Version, ce.Deleted)
 		} else if he != ce {
 			run.Fail("C02.prefix", "stale-entry", "%s: shows %q=(%q,v%d,deleted=%v), owner has (%q,v%d,deleted=%v)", tag, k, he.Value, he.Version, he.Deleted, ce.Value, ce.Version, ce.Deleted)
 		}
